@@ -279,6 +279,10 @@ func genRef(r *Rand, p *Plan, tier string, focus string) {
 					s = g.acctSess(scope, flags, r.Chance(30))
 				}
 			}
+			if r.Chance(12) {
+				// sessions may start anywhere in the sequence space, also right under its top
+				s = ShiftSeq(s, PickOf(r, uint8(3), 5, 101, 249, 251, 253, 255))
+			}
 			scripts = append(scripts, s)
 		}
 		cs.Ops = Interleave(r, scripts, r.Chance(30))
